@@ -160,6 +160,21 @@ var scenarios = []scenario{
 		}
 		return ""
 	}},
+	// an account creation whose login is spelled so that it names an existing account's file: whatever the reply, an
+	// account that may not modify users must not have changed the existing account
+	{name: "new-user-spelled-like-existing", typ: 350, build: func(e env) []rc.Field {
+		return []rc.Field{rc.F(105, rc.Obfuscate([]byte("x/../spare"))), rc.FS(102, "Usurper"), rc.F(106, rc.Obfuscate([]byte("usurped"))), rc.F(110, rc.Bitmap(2))}
+	}, semantic: func(bits []byte, o outcome, srv *fixture.Server) string {
+		if rc.BitSet(bits, 17) {
+			return ""
+		}
+		for _, d := range o.diff {
+			if strings.Contains(d, "Users/spare.yaml") {
+				return "an account without modify-user caused " + d
+			}
+		}
+		return ""
+	}},
 	// controls: no governing privilege, must be served whatever the bitmap
 	{name: "ctl-keepalive", typ: 500, build: func(e env) []rc.Field { return nil }},
 	{name: "ctl-userlist", typ: 300, build: func(e env) []rc.Field { return nil }},
@@ -174,7 +189,7 @@ func init() {
 	n := len(scenarios) * chunks
 	core.Register(&core.Simple{
 		Id: "C05", Lvl: "exploration", Quick: n, Thorough: n * 12, PerBatch: 72, Width: 24, Timeout: 1200,
-		RuleText: "one case = one request scenario (request type x target kind, 65 scenarios incl. controls, operations on existing aliases and two hostile path encodings judged by absolute oracles) executed on identical fresh servers under a chunk of access bitmaps: all-ones (baseline), all-ones minus each governing bit, only the governing bits, the 64 single-bit bitmaps (exhaustive across the 8 chunks of a scenario) and seeded random bitmaps; the privileges are either held from the start, or set by an administrator between the actor's login and its agreed, or set on the live session (the privileges current when the request arrives are what counts); the oracle compares reply class, emissions to other clients and file/account/news/board snapshots with the baseline (granted) or demands an error reply and no change (denied). distinct = (scenario, bitmap class, granted/denied); non-trivial = every execution",
+		RuleText: "one case = one request scenario (request type x target kind, 66 scenarios incl. controls, operations on existing aliases, and two hostile path encodings and a creation spelled like an existing account judged by absolute oracles) executed on identical fresh servers under a chunk of access bitmaps: all-ones (baseline), all-ones minus each governing bit, only the governing bits, the 64 single-bit bitmaps (exhaustive across the 8 chunks of a scenario) and seeded random bitmaps; the privileges are either held from the start, or set by an administrator between the actor's login and its agreed, or set on the live session (the privileges current when the request arrives are what counts); the oracle compares reply class, emissions to other clients and file/account/news/board snapshots with the baseline (granted) or demands an error reply and no change (denied). distinct = (scenario, bitmap class, granted/denied); non-trivial = every execution",
 		Case:     runCase,
 	})
 }
